@@ -166,7 +166,11 @@ def _rowwise_check(a):
                 for j in range(i + 1, len(field)):
                     best = min(best, math.hypot(field[i][0] - field[j][0], field[i][1] - field[j][1]))
             if best < s - 1e-6:
-                return False, {"why": "two boreholes closer than the target spacing", "distance": best, "spacing": s, "outline": pts, "rotation_deg": a.get("rot_deg", 0.0), "signature": "spacing"}
+                # rows that run parallel to an edge of the outline (one of them then lies ON that edge) are the recorded class
+                par = any(abs((pts[(i + 1) % len(pts)][0] - pts[i][0]) * math.sin(rot) - (pts[(i + 1) % len(pts)][1] - pts[i][1]) * math.cos(rot))
+                          < 1e-9 * math.hypot(pts[(i + 1) % len(pts)][0] - pts[i][0], pts[(i + 1) % len(pts)][1] - pts[i][1]) for i in range(len(pts)))
+                return False, {"why": "two boreholes closer than the target spacing", "distance": best, "spacing": s, "outline": pts, "rotation_deg": a.get("rot_deg", 0.0),
+                               "signature": "spacing" + ("/rows-parallel-to-an-edge" if par else "/generic")}
         if a["kind"] == "rect" and not nogo and a.get("rot_deg", 0.0) == 0.0 and not a.get("clockwise"):
             w, h = a["w"], a["h"]
             nx, ny = int(math.floor(w / s + 1e-9)) + 1, int(math.floor(h / s + 1e-9)) + 1
@@ -257,14 +261,21 @@ def _rowwise_check(a):
             from ghedesigner.rowwise import remove_duplicates
 
             step, lo, hi = a["sweep"]
-            done, res = _run_limited(lambda: field_optimization_fr(s, step, shapes[0], ng_zones=shapes[1], rotate_start=lo * DEG_TO_RAD, rotate_stop=hi * DEG_TO_RAD), 8 * budget)
-            if not done:
-                return False, {"why": "rotation sweep did not terminate", "outline": pts, "sweep": a["sweep"], "spacing": s, "signature": "no-termination/sweep/" + res}
-            configs = []
-            rt = lo * DEG_TO_RAD
-            while rt < hi * DEG_TO_RAD:
-                configs.append(gen_borehole_config(shapes[0], s, s, no_go=shapes[1], rotate=rt, intersection_tolerance=1e-5))
-                rt += step * DEG_TO_RAD
+            try:
+                done, res = _run_limited(lambda: field_optimization_fr(s, step, shapes[0], ng_zones=shapes[1], rotate_start=lo * DEG_TO_RAD, rotate_stop=hi * DEG_TO_RAD), 8 * budget)
+                if not done:
+                    return False, {"why": "rotation sweep did not terminate", "outline": pts, "sweep": a["sweep"], "spacing": s, "signature": "no-termination/sweep/" + res}
+                configs = []
+                rt = lo * DEG_TO_RAD
+                while rt < hi * DEG_TO_RAD:
+                    configs.append(gen_borehole_config(shapes[0], s, s, no_go=shapes[1], rotate=rt, intersection_tolerance=1e-5))
+                    rt += step * DEG_TO_RAD
+            except (ZeroDivisionError, IndexError, KeyError, TypeError, ValueError) as e:
+                import traceback
+
+                where = traceback.extract_tb(e.__traceback__)[-1]
+                return False, {"why": f"the rotation sweep raised {type(e).__name__}: {e}", "where": f"{where.name}:{where.lineno}", "outline": pts, "spacing": s, "sweep": a["sweep"],
+                               "signature": f"exception/{type(e).__name__}/{where.name}"}
             counts = [len(c) for c in configs]
             want = remove_duplicates(configs[counts.index(max(counts))], s * 1.2) if counts else []
             got = [list(map(float, p)) for p in res[0]]
@@ -316,6 +327,7 @@ _RW_FIXED = [
     {"kind": "rect", "w": 34.0, "h": 17.0, "spacing": 17.0, "rot_deg": 0.0, "shift": [33.3, 0.0]},      # D20 (fixed): a lot exactly one spacing high raised ZeroDivisionError
     {"kind": "rect", "w": 50.0, "h": 60.0, "spacing": 10.0, "rot_deg": 0.0, "shift": [33.0, 0.0]},      # D20 (fixed): 6 rows 12 m apart instead of 7 rows 10 m apart
     {"kind": "rect", "w": 25.0, "h": 5.0, "spacing": 12.5, "rot_deg": 0.0, "shift": [33.0, 0.0]},       # recorded finding: a lot narrower than the spacing -> ZeroDivisionError
+    {"kind": "regular", "spacing": 25.0, "rot_deg": 60.0, "clockwise": True, "shift": [0.0, 25.0], "n": 3, "r": 30.0},  # recorded finding: small triangle, rows perpendicular to an edge: 22.9 m between two boreholes
     {"kind": "regular", "n": 9, "r": 80.0, "spacing": 25.0, "rot_deg": 0.0, "zone": 0.5, "check_translation": False},  # recorded finding: a row through a vertex of the zone -> boreholes inside the zone
     {"kind": "rect", "w": 100.0, "h": 60.0, "spacing": 10.0, "rot_deg": 0.0, "shift": [10.0, 10.0], "zone": 0.37, "perimeter": 0.8, "sweep": [15.0, -45.0, 45.0]},  # zones + perimeter + sweep history
     {"kind": "pts", "pts": [[0.0, 10.0], [70.0, 0.0], [110.0, 45.0], [60.0, 90.0], [5.0, 60.0]], "spacing": 10.0, "rot_deg": 15.0, "zone": 0.4, "perimeter": 0.6},
@@ -373,7 +385,9 @@ def _rowwise_gen(rng):
         a["perimeter"] = rng.choice([0.6, 0.8, 1.0])
     if kind == "rect" and rng.random() < 0.3:
         a["ints"] = True
-        a["spacing"] = rng.choice([7.5, 12.5, a["spacing"]])
+        new_s = rng.choice([7.5, 12.5, a["spacing"]])
+        if min(a["w"], a["h"]) >= 2 * new_s:  # stay inside the domain: the lot is at least two spacings wide
+            a["spacing"] = new_s
         if "zone" not in a and rng.random() < 0.5:
             a.update(two_zones=rng.choice(["far-first", "near-first"]), check_translation=False)
     return a
